@@ -1885,6 +1885,11 @@ impl SctpInner {
     }
 
     async fn handle_cookie_ack(&self, _chunk: Bytes) -> Result<()> {
+        // Closed is final: a COOKIE ACK that follows an ABORT (same packet or a
+        // later one) must not establish the association again.
+        if *self.state.lock() == SctpState::Closed {
+            return Ok(());
+        }
         self.t1_cancel();
         // Only the COOKIE-ACK that establishes the association initialises the PR-SCTP
         // ack point. A duplicated copy arriving after DATA has been sent would move it
@@ -2344,6 +2349,9 @@ impl SctpInner {
     async fn handle_cookie_echo(&self, chunk: Bytes) -> Result<()> {
         if !self.validate_cookie(&chunk) {
             debug!("SCTP: Invalid or expired cookie, ignoring COOKIE-ECHO");
+            return Ok(());
+        }
+        if *self.state.lock() == SctpState::Closed {
             return Ok(());
         }
 
